@@ -98,6 +98,18 @@ pub fn size_hint<T: Iterator>(it: &T) -> (r: (usize, Option<usize>))
         r.1 matches Some(u) ==> it.remaining().len() <= u,
 { it.size_hint() }
 
+/// R26: `set.range((Excluded(k), Unbounded)).next()` on the tracker's `BTreeSet<FileNumber>` (ordered by number, looked up by `u64` through
+/// `Borrow<u64>`).  Assumed (std contract of BTreeSet::range + the derived Ord): the least element whose number exceeds k, if any.
+#[verifier::external_body]
+pub fn btree_next_after<'a>(s: &'a std::collections::BTreeSet<crate::rolling::FileNumber>, k: u64) -> (r: Option<&'a crate::rolling::FileNumber>)
+    ensures
+        match r {
+            Some(n) => s@.contains(*n) && k < *n.file_number
+                && forall|m: crate::rolling::FileNumber| s@.contains(m) && k < *m.file_number ==> *n.file_number <= *m.file_number,
+            None => forall|m: crate::rolling::FileNumber| s@.contains(m) ==> *m.file_number <= k,
+        },
+{ use std::ops::Bound::{Excluded, Unbounded}; s.range((Excluded(k), Unbounded)).next() }
+
 /// R24: `(a..b).take_while(p).map(f)`.  Assumed (std contracts of Range<usize>, Iterator::take_while, Iterator::map): the result is a finite
 /// well-behaved iterator yielding f(a), f(a+1), .., f(k-1) where k is the first index in a..b that p rejects (k = b if there is none);
 /// p is only called on a..=k and f only on indices p accepted.  Closures are `Fn` (the repo's do not mutate their captures).
